@@ -36,6 +36,7 @@ type FilterScenario struct {
 	Parser  *ParserSpec      `json:"parser,omitempty"`
 	Reader  world.ReaderPlan `json:"reader"`
 	Inserts []Insertion      `json:"inserts,omitempty"` // null / adaptation-only packets added to the stream
+	K       int              `json:"k,omitempty"`       // stream carried in 188+K byte packets (size given explicitly)
 }
 
 var errParserSentinel = errors.New("sim: packets parser failure")
@@ -92,6 +93,9 @@ func (filters) Generate(r *core.PRNG, tier string, idx int64) any {
 			}
 			sc.Inserts = append(sc.Inserts, in)
 		}
+	}
+	if r.Chance(1, 5) {
+		sc.K = []int{4, 16, 1}[r.Intn(3)]
 	}
 	if idx%2 == 0 {
 		s := &SkipSpec{}
@@ -238,9 +242,16 @@ func (filters) Execute(scAny any, keepLog bool) *core.Outcome {
 	}
 	npk := len(pkts)
 	out.Packets = int64(npk)
-	data := refts.Join(pkts)
-	cfg := DemuxCfg{PacketSize: 188, Reader: sc.Reader}
-	plain := DemuxCfg{PacketSize: 188, Reader: world.ReaderPlan{Kind: "seekable"}}
+	k := sc.K
+	if k < 0 || k > 64 {
+		k = 0
+	}
+	if k > 0 {
+		out.Fire("frame-188+k")
+	}
+	data := reframe(pkts, k)
+	cfg := DemuxCfg{PacketSize: 188 + k, Reader: sc.Reader}
+	plain := DemuxCfg{PacketSize: 188 + k, Reader: world.ReaderPlan{Kind: "seekable"}}
 	shape := fmt.Sprint(len(sc.Model.Streams), npk > 12)
 
 	// the library's own parse of every packet, without callbacks
@@ -287,7 +298,7 @@ func (filters) Execute(scAny any, keepLog bool) *core.Outcome {
 			}
 			filtered = append(filtered, p)
 		}
-		fdata := refts.Join(filtered)
+		fdata := reframe(filtered, k)
 		for _, api := range []string{"packet", "data"} {
 			out.Evals++
 			var logs []skipLog
@@ -674,6 +685,11 @@ func (filters) Shrink(scAny any) []any {
 	if len(sc.Inserts) > 0 {
 		c := *sc
 		c.Inserts = nil
+		out = append(out, &c)
+	}
+	if sc.K != 0 {
+		c := *sc
+		c.K = 0
 		out = append(out, &c)
 	}
 	if sc.Skipper != nil && sc.Parser != nil {
